@@ -58,6 +58,8 @@ func (s *ProtocolServer) Serve(ctx context.Context) error {
 					if err = s.p.SendMissing(id); err != nil {
 						return errors.Wrap(err, "failed to send to client")
 					}
+					// The client was told, carry on with the next request
+					continue
 				}
 				return errors.Wrap(err, "unable to read chunk from store")
 			}
